@@ -155,8 +155,13 @@ def correspondence(ctx, which, fname):
         ch = 'rhombohedral' if r['choice'] == 'rhombohedral' else 'standard'
         s = sg.sg(sgno=r['no'], cell_choice=ch)
         nrep = ctx.n(1, 3) * (12 if (r['choice'] == 'rhombohedral' and r['laue'] == '-3') else (4 if r['choice'] == 'rhombohedral' else 1))
-        for rep in range(nrep):
-            case = make_case(rng, s)
+        cases_i = [make_case(rng, s) for rep in range(nrep)]
+        if ch == 'standard' and rng.random() < (0.05 if ctx.quick else 0.2):
+            # directed: one short reciprocal axis (indices >= 10) / nearly degenerate axes
+            dc = make_directed_case(rng, s, rng.choice(['high', 'neardeg']))
+            if dc is not None:
+                cases_i.append(dc)
+        for rep, case in enumerate(cases_i):
             mod = tools if (i + rep) % 2 == 0 else laue
             G, Tmin, Tmax, Tterm = coq_params(case)
             try:
@@ -171,7 +176,7 @@ def correspondence(ctx, which, fname):
                 continue
             lines.append('same (%s ast_laue_sysabs segm_laue 80 (%s) %s %s %s (nth %d all_settings dflt)) %s' % (
                 fn, G, z(Tmin), z(Tmax), z(Tterm), i, hkl_list(sorted(got))))
-            ctx.count(('corr', which, i, rep), hist='corr:%s:%s' % (which, r['csys']),
+            ctx.count(('corr', which, i, rep), hist='corr:%s:%s%s' % (which, r['csys'], (':' + case['kind']) if case.get('kind') else ''),
                       sample={'sgno': r['no'], 'cell_choice': ch, 'cell': case['cell'], 'sintlmin': case['lo'], 'sintlmax': case['hi'], 'rows': len(got)} if len(lines) == 1 else None)
             ctx.cov['disagreements_checked'] += 1
     text = ('(* GENERATED on every run: the traversal model evaluated in Coq against genhkl_%s *)\n'
